@@ -132,7 +132,14 @@ def ramanFiberH (j : Json) : R Json := do
       return jObj [("pch", jList jF out), ("loss_last", jList jF lossLast),
                    ("grid", jList (fun g : Float × Float => Json.arr #[jF g.1, jF g.2]) grid)]
 
+/-- `numpy.interp(x, xp, fp)` (clamping) and `interp1d(xp, fp)(x)` (error outside) on a table -/
+def interpH (j : Json) : R Json := do
+  let xs ← fList getF j "x"
+  let tab ← fList C03.getPair j "table"
+  return jObj [("interp", jList jF (xs.map (fun x => Gnpy.Interp.interp x tab))),
+               ("interp1d", jList (jOpt jF) (xs.map (fun x => Gnpy.Interp.interp1d x tab)))]
+
 def handlers : List (String × Handler) :=
-  [("c05.span", spanH), ("c05.path", pathH), ("c05.raman_uni", ramanUniH), ("c05.raman_fiber", ramanFiberH)]
+  [("c05.interp", interpH), ("c05.span", spanH), ("c05.path", pathH), ("c05.raman_uni", ramanUniH), ("c05.raman_fiber", ramanFiberH)]
 
 end Gnpy.Drv.C05
